@@ -4,7 +4,7 @@
    the guard cannot be removed: C20_vertical_refuted (known finding "vertical-segment", pinned by the repository's own test). *)
 From Coq Require Import List Arith Reals Lra Lia Bool PrimFloat.
 Import ListNotations.
-From TL Require Import Model.Num Model.Geom Proofs.GeomAlg Proofs.GeomProj Proofs.Geom_bridge Proofs.PolyMin Proofs.Poly_bridge.
+From TL Require Import Model.Num Model.Geom Proofs.GeomAlg Proofs.GeomProj Proofs.Geom_bridge Proofs.PolyMin Proofs.Poly_bridge Proofs.MapMatch_sound.
 Open Scope R_scope.
 
 (* one segment, any non-vertical orientation (horizontal included), any query point (on the segment included):
@@ -35,6 +35,17 @@ Theorem C20_polyline_partial eps pts x y :
   end.
 Proof. exact (proj_polyligne_nearest eps pts x y). Qed.
 Print Assumptions C20_polyline_partial.
+
+(* what remains true on every segment, vertical ones included, whenever the code does not raise (seg_defined: non-vertical, or
+   vertical outside the inputs characterised by C10_guard_excludes): the returned point lies on the segment and the returned
+   distance is the distance to it - only minimality is lost on vertical segments (the open finding) *)
+Theorem C20_any_orientation_sound x1 y1 x2 y2 x y :
+  let s := {| sx1 := x1; sy1 := y1; sx2 := x2; sy2 := y2 |} in
+  seg_defined s x y ->
+  let '(d, px, py) := Geom.proj_segment RNum s x y in
+  (exists mu, 0 <= mu <= 1 /\ (px, py) = on_seg x1 y1 x2 y2 mu) /\ d = dist x y px py.
+Proof. exact (proj_segment_sound x1 y1 x2 y2 x y). Qed.
+Print Assumptions C20_any_orientation_sound.
 
 (* the guard is needed: on the vertical segment (10,0)-(10,5) the binary64 instance of the same model - bit for bit what
    CPython computes - returns the end point (10,0) at distance sqrt(29) > 5 for the query (5,2), whose nearest point is (10,2) *)
